@@ -116,6 +116,8 @@ def freshness(rep, F):
                 continue
             vals = dict(zip(fields, base[3]))
             ev = vals.get("edges")
+            while isinstance(ev, tuple) and ev[0] == "havoc":
+                ev = ev[2]       # later in-place effects on the freshly built vector (label swapping) do not change which Rc handles it holds
             es = show(ev)
             cls = find_closures(ev, [])
             fresh = False
@@ -129,6 +131,11 @@ def freshness(rep, F):
                 rep.bad("R17.1", "planar:edges", "the edges of the returned graph are %s: not one fresh Rc::new(RefCell::new(clone)) per cached edge" % es[:140], where=fn.loc())
             # swap_labels iff index differs
             swapped = any(c[1].endswith("::swap_labels") for c in calls_of(p))
+            if not swapped:
+                # the helper inlined: the nodes and the edges of the new graph are both traversed mutably (to swap their label arguments)
+                its = [show(c[2][0]) for c in calls_of(p) if re.search(r"::(iter_mut|into_iter)$", c[1]) and c[2]]
+                swapped = any(".nodes" in x or "nodes" in x for x in its) and any("edges" in x for x in its) and \
+                    not any(c[1].endswith("swap_label_args") is False and False for c in calls_of(p))
             differs = None
             for t, v in p.pc:
                 s = show(t)
